@@ -69,6 +69,12 @@ var c12Backends = []beFn{
 // concurrent shared-module workload, where they would race by construction
 var mutates = map[string]bool{"dxil": true, "glsl-pc": true}
 
+// mutatesOn: does this back end resolve overrides on a (shallow) clone of the caller's module for this source?  glsl does
+// for every module that declares overrides, with or without supplied constants.
+func mutatesOn(name, src string) bool {
+	return mutates[name] || (name == "glsl" && strings.Contains(src, "override "))
+}
+
 func safeRun(b beFn, m *ir.Module) (out string, errS string) {
 	r := guard(b.name, func() error { o, err := b.run(m); out = o; return err })
 	return out, r.err
@@ -303,18 +309,15 @@ func cmdC12(c *ctx) {
 		s := pool[(i*13+5)%len(pool)]
 		solo := map[string]string{}
 		for _, b := range c12Backends {
-			if mutates[b.name] {
-				continue // mutates the module (recorded finding); would race by construction
-			}
-			o, e := safeRun(b, lower(s))
+			o, e := safeRun(b, lower(s)) // alone, on a module of its own
 			solo[b.name] = o + "|" + e
 		}
 		shared := lower(s)
 		var wg sync.WaitGroup
 		res := make([]string, len(c12Backends))
 		for bi, b := range c12Backends {
-			if mutates[b.name] {
-				continue
+			if mutatesOn(b.name, s.src) {
+				continue // mutates the module (recorded finding); would race by construction
 			}
 			wg.Add(1)
 			go func(bi int, b beFn) {
@@ -325,7 +328,7 @@ func cmdC12(c *ctx) {
 		}
 		wg.Wait()
 		for bi, b := range c12Backends {
-			if !mutates[b.name] && res[bi] != solo[b.name] {
+			if !mutatesOn(b.name, s.src) && res[bi] != solo[b.name] {
 				report("parallel-shared", b.name+" output differs when other back ends compile the same module concurrently", s)
 			}
 			c.count("parallel-compilations")
